@@ -120,6 +120,10 @@ def run(rule_filter=None, jobs=None, repo=None, quiet_rules=None):
         pf = os.path.join(HERE, 'seeded', seed_id, 'patch.diff')
         if os.path.exists(pf):
             work.append(('quiet', mid, 'PATCH', pf, fixups, qrules, baseline, repo, False))
+    # behaviour-preserving refactorings written by independent sub-agents (refactors/<id>/patch.diff)
+    for pf in sorted(glob.glob(os.path.join(HERE, 'refactors', '*', 'patch.diff'))):
+        work.append(('quiet', 'refactor:' + os.path.basename(os.path.dirname(pf)), 'PATCH', pf, None, qrules, baseline,
+                     repo, False))
     for m in QUIET:
         mid, fn, old, new = m[:4]
         work.append(('quiet', mid, fn, old, new, qrules, baseline, repo, 'helper' in mid or (len(m) > 4 and m[4] == 'all')))
